@@ -31,8 +31,9 @@ AllocOk(s, c) == IF s.allocated + c <= s.limit THEN {[s EXCEPT !.allocated = s.a
 AllocFail(s, c, live) == IF live >= 0 /\ live + c + Slack <= s.limit THEN {} ELSE {s}
 \* only something that is outstanding can be released
 Dealloc(s, c) == IF Count(s, c) > 0 THEN {[s EXCEPT !.allocated = s.allocated - c, !.ledger = Minus(s, c)]} ELSE {}
-\* after a collection nothing unreachable is still accounted for
-GcEnd(s, live) == IF live >= 0 /\ s.allocated > live THEN {} ELSE {s}
+\* after a collection nothing unreachable is still accounted for (except what the operation that
+\* triggered the collection has allocated but not yet linked: at most Slack bytes)
+GcEnd(s, live) == IF live >= 0 /\ s.allocated > live + Slack THEN {} ELSE {s}
 \* a cleared VM accounts for nothing
 Clear(s) == IF s.allocated = 0 /\ DOMAIN s.ledger = {} THEN {s} ELSE {}
 
